@@ -18,7 +18,7 @@ ASSUMPTIONS = ['reference integrates with 24 Gauss points (exact for the series 
 SIG_ORDER = 'C12:12-block-lost-when-p1-follows-p2'
 SIG_KT = 'C12:bot-top-kt-uses-first-panel-size-only'
 KINDS = ['SSycte', 'SSxcte', 'BFycte', 'BFxcte', 'SB']
-PAIRS = ['equal', 'orders', 'size', 'flags', 'lam']
+PAIRS = ['equal', 'orders', 'size', 'flags', 'lam', 'plyts']
 
 
 def build_pair(kind, pair, pos, seed):
@@ -47,6 +47,9 @@ def build_pair(kind, pair, pos, seed):
     cfg1 = dict(model='plate', a=a1, b=b1, lam=lam1, m=m1, n=n1, fbase=fb1, seed=seed)
     cfg2 = dict(model='plate', a=a2, b=b2, lam=lam2, m=m2, n=n2, fbase=fb2, seed=seed + 1)
     p1, p2 = pan.make_panel(cfg1), pan.make_panel(cfg2)
+    if pair == 'plyts':      # explicit non-uniform ply thicknesses next to the scalar one (the list is what defines the laminate)
+        p1.plyts = [pan.PLYT * (1 + 3 * (i % 2)) for i in range(len(p1.stack))]
+        p2.plyts = [pan.PLYT * (2 - 0.5 * (i % 2)) for i in range(len(p2.stack))]
     frac1, frac2 = pos
     if kind in ('SSycte', 'BFycte'):
         c = dict(p1=p1, p2=p2, func=kind, ycte1=frac1 * b1, ycte2=frac2 * b2)
@@ -139,6 +142,10 @@ def check_conn(case):
     ctype = {'SSycte': 'ycte', 'BFycte': 'ycte', 'SSxcte': 'xcte', 'BFxcte': 'xcte', 'SB': 'bot-top'}[case['conn']]
     kt, kr = connections.calc_kt_kr(p1, p2, ctype)
     dsb = lam1['h'] / 2 + lam2['h'] / 2
+    if case['pair'] == 'plyts':
+        dsb = sum(p1.plyts) / 2 + sum(p2.plyts) / 2
+        if abs(p1.lam.t - sum(p1.plyts)) > 1e-15 or abs(p2.lam.t - sum(p2.plyts)) > 1e-15:
+            fails.append(fail('laminate thickness of a panel with explicit ply thicknesses is not their sum', sig=None, case=case))
     K11, K12, K22 = rc.conn_hessian(case['conn'], ref1, ref2, kt, kr if kr is not None else 0.0, pos1, pos2, dsb=dsb)
     Kr = np.zeros((size, size))
     r1, r2 = p1.row_start, p2.row_start
